@@ -44,6 +44,18 @@ Next == /\ c.kind = "none"
                             grid |-> LET pts == {X \in LspGrid : Fits(ks, X)} IN
                                      [i \in 1..Cardinality(pts) |-> LET X == CHOOSE x \in pts : Cardinality({y \in pts : y < x}) = i - 1
                                                                    IN <<X, NumA2(ks, X)>>]]
+           \* C01 on the LSP path with the formant postfilter: frequency sets with one clustered interior pair (adjacent cosines k/8, about
+           \* 0.125 rad apart) between neighbours at least five steps away.  The postfilter (beta > 0) pushes such a pair past each other
+           \* and the vocoder's spacing repair has to undo that before the filter is built.  Every set is inside the stable range.
+           \/ /\ Mode = "lspbeta"
+              /\ \E m \in Orders, a \in Alphas, r \in Rates, st \in Stages, b \in Betas :
+                 \E s \in SUBSET (-7..7) :
+                   /\ Cardinality(s) = m
+                   /\ LET ks == DecSeq(s) IN
+                      /\ \E p \in 2..(m - 2) : ks[p] - ks[p + 1] = 1 /\ ks[p - 1] - ks[p] >= 5 /\ ks[p + 1] - ks[p + 2] >= 5
+                      /\ StableH(ks, st)
+                      /\ c' = [kind |-> "lspbeta", ks |-> ks, stage |-> st, alpha |-> a, rate |-> r, beta8 |-> b,
+                               loggain |-> (SumSq(s) % 2 = 0), gain8 |-> IF SumSq(s) % 2 = 0 THEN (SumSq(s) % 5) - 2 ELSE 4 + (SumSq(s) % 9)]
 Spec == Init /\ [][Next]_vars
 Emit == c.kind # "none" => PrintT(<<"CASE", ToJson(c)>>)
 \* preconditions of the laws hold for every generated cepstrum
